@@ -397,6 +397,9 @@ func rulesC10(e *Engine, r *Report) {
 	}
 	r.Rule("R10.7", "chain surgery: unlink/addAfter/addBefore perform exactly their four pointer updates under the right nil guards (the old neighbour is read before it is overwritten), insert = unlink then add, the setters/getters touch the like-named pointer, removeFile keeps head and index consistent")
 	e.checkLinkHelpers(r, "R10.7")
+	// ---------------------------------------------------------------- R10.8
+	r.Rule("R10.8", "files resumed after a restart keep the predecessor they had announced: every recoverFile that recover() builds with a list of missing ranges takes its predecessor from the receiver's partial record (the sender's cache does not store it, and a polled object built from the cache has none) - shared with R04.6")
+	e.checkRecoverKeepsPrev(r, "R10.8")
 }
 
 func rulesC12(e *Engine, r *Report) {
